@@ -16,6 +16,8 @@ def sh(cmd, **kw):
 
 
 def main():
+    os.environ.setdefault('VERIF_EVIDENCE_DIR', '/var/tmp/dw-seed-evidence')
+    os.environ.setdefault('VERIF_REPLAY_DIR', '/var/tmp/dw-seed-replays')
     seeds = sys.argv[1:] or sorted(d for d in os.listdir(os.path.join(VERIF, 'seeded')) if os.path.isdir(os.path.join(VERIF, 'seeded', d)))
     results = {}
     for s in seeds:
